@@ -24,46 +24,47 @@ import (
 
 // flowParams describes one scenario instance.
 type flowParams struct {
-	Engine         string              `json:"engine"`
-	Sources        int                 `json:"sources"`
-	Records        int                 `json:"records"`
-	Batch          int                 `json:"batch"` // records per Read
-	Dests          int                 `json:"dests"`
-	AckMenu        []string            `json:"ack_menu"`
-	DLQMenu        []string            `json:"dlq_menu"`
-	Window         int                 `json:"dlq_window"`
-	Thresh         int                 `json:"dlq_threshold"`
-	Stop           string              `json:"stop"` // "", "stopwait", "stop+wait", "force"
-	Bundle         int                 `json:"persister_bundle"`
-	Faults         bool                `json:"store_faults"`
-	ReadMenu       []string            `json:"read_menu"`
-	Blocked        []string            `json:"blocked"` // connectors whose ack gate is never granted (unresponsive plugin)
-	Restart        bool                `json:"restart"` // start the pipeline again after the stop completed
-	Retries        int                 `json:"max_retries"`
-	Procs          []procParam         `json:"procs"`
-	PointOnly      []string            `json:"point_only"`       // preemptive part: sweep only points of these files
-	MaxOcc         int                 `json:"max_occurrence"`   // preemptive part: sweep the first MaxOcc occurrences of every site (default 2)
-	LateOpen       []string            `json:"late_open"`        // destinations whose Open gate sorts last (stays pending by default)
-	LateCommit     bool                `json:"late_commit"`      // store commits stay in flight until nothing else can run (exploration order)
-	FailDispense   []string            `json:"fail_dispense"`    // plugins whose next dispense fails once (the first start cannot build its nodes)
-	CommitDelaysMs []int               `json:"commit_delays_ms"` // the k-th store commit takes this long (virtual ms): a slow but responding store
-	ChunkAcks      bool                `json:"chunk_acks"`       // forced destination answers (Reject) arrive one response per record
-	AckScript      []string            `json:"ack_script"`       // forced answer of the k-th ack request of every destination (input script, not a choice)
-	IdleBatches    []int               `json:"idle_batches"`     // source batches whose first read waits until no timer is left (quiet period)
-	LatePut        bool                `json:"late_put"`         // non-transactional store writes (pipeline status) stay in flight until nothing else can run
-	SiteWide       bool                `json:"site_wide"`        // preemptive part: hold every goroutine reaching the armed site
-	AckSendFaults  bool                `json:"ack_send_faults"`  // every ack the engine sends to a source plugin may fail transiently (transport)
-	LateAckRecv    bool                `json:"late_ack_recv"`    // source plugins are slow to receive acks (exploration order)
-	GateDestOpen   bool                `json:"gate_dest_open"`   // destination Open calls are pending events with answers {ok, err}
-	NoMatch        []int               `json:"no_match"`         // records that do not match the processors' condition (Cond: "match")
-	GateSrcOpen    []string            `json:"gate_src_open"`    // sources whose Open is a pending event with answers {ok, err}
-	GateDLQOpen    bool                `json:"gate_dlq_open"`    // the DLQ connector's Open is a pending event (an unresponsive DLQ during start-up)
-	Reject         map[string][]string `json:"reject"`           // destination -> records/pieces it rejects (forced answers, C08)
-	Apply          []string            `json:"apply"`            // live applies: "<kind>[+stale][+noauth]", kind in proc, twoprocs, conn, addproc; "||" prefix = concurrent with the previous one
-	Reconf         []string            `json:"reconf"`           // live reconfigure requests for processor "pp": "A", "B" (concurrent), "cancelA"
-	ProcOpenMenu   []string            `json:"proc_open_menu"`
-	Ctl            []string            `json:"ctl"`           // explicit control history (after "start"): stop, wait, stopwait, force, stopall, start; one at a time
-	SrcPositions   string              `json:"src_positions"` // "" normal, "dup": record 1 repeats the position of record 0, "empty": record 1 has an empty position
+	Engine          string              `json:"engine"`
+	Sources         int                 `json:"sources"`
+	Records         int                 `json:"records"`
+	Batch           int                 `json:"batch"` // records per Read
+	Dests           int                 `json:"dests"`
+	AckMenu         []string            `json:"ack_menu"`
+	DLQMenu         []string            `json:"dlq_menu"`
+	Window          int                 `json:"dlq_window"`
+	Thresh          int                 `json:"dlq_threshold"`
+	Stop            string              `json:"stop"` // "", "stopwait", "stop+wait", "force"
+	Bundle          int                 `json:"persister_bundle"`
+	Faults          bool                `json:"store_faults"`
+	ReadMenu        []string            `json:"read_menu"`
+	Blocked         []string            `json:"blocked"` // connectors whose ack gate is never granted (unresponsive plugin)
+	Restart         bool                `json:"restart"` // start the pipeline again after the stop completed
+	Retries         int                 `json:"max_retries"`
+	Procs           []procParam         `json:"procs"`
+	PointOnly       []string            `json:"point_only"`       // preemptive part: sweep only points of these files
+	MaxOcc          int                 `json:"max_occurrence"`   // preemptive part: sweep the first MaxOcc occurrences of every site (default 2)
+	LateOpen        []string            `json:"late_open"`        // destinations whose Open gate sorts last (stays pending by default)
+	LateCommit      bool                `json:"late_commit"`      // store commits stay in flight until nothing else can run (exploration order)
+	FailDispense    []string            `json:"fail_dispense"`    // plugins whose next dispense fails once (the first start cannot build its nodes)
+	CommitDelaysMs  []int               `json:"commit_delays_ms"` // the k-th store commit takes this long (virtual ms): a slow but responding store
+	ChunkAcks       bool                `json:"chunk_acks"`       // forced destination answers (Reject) arrive one response per record
+	AckScript       []string            `json:"ack_script"`       // forced answer of the k-th ack request of every destination (input script, not a choice)
+	IdleBatches     []int               `json:"idle_batches"`     // source batches whose first read waits until no timer is left (quiet period)
+	LatePut         bool                `json:"late_put"`         // non-transactional store writes (pipeline status) stay in flight until nothing else can run
+	SiteWide        bool                `json:"site_wide"`        // preemptive part: hold every goroutine reaching the armed site
+	AckSendFaults   bool                `json:"ack_send_faults"`  // every ack the engine sends to a source plugin may fail transiently (transport)
+	LateAckRecv     bool                `json:"late_ack_recv"`    // source plugins are slow to receive acks (exploration order)
+	GateDestOpen    bool                `json:"gate_dest_open"`   // destination Open calls are pending events with answers {ok, err}
+	NoMatch         []int               `json:"no_match"`         // records that do not match the processors' condition (Cond: "match")
+	GateSrcOpen     []string            `json:"gate_src_open"`    // sources whose Open is a pending event with answers {ok, err}
+	GateDLQOpen     bool                `json:"gate_dlq_open"`    // the DLQ connector's Open is a pending event (an unresponsive DLQ during start-up)
+	Reject          map[string][]string `json:"reject"`           // destination -> records/pieces it rejects (forced answers, C08)
+	Apply           []string            `json:"apply"`            // live applies: "<kind>[+stale][+noauth]", kind in proc, twoprocs, conn, addproc; "||" prefix = concurrent with the previous one
+	Reconf          []string            `json:"reconf"`           // live reconfigure requests for processor "pp": "A", "B" (concurrent), "cancelA"
+	ProcOpenMenu    []string            `json:"proc_open_menu"`
+	ProcTeardownErr bool                `json:"proc_teardown_err"` // every processor Teardown reports an error (after doing its work)
+	Ctl             []string            `json:"ctl"`               // explicit control history (after "start"): stop, wait, stopwait, force, stopall, start; one at a time
+	SrcPositions    string              `json:"src_positions"`     // "" normal, "dup": record 1 repeats the position of record 0, "empty": record 1 has an empty position
 }
 
 // procParam describes one scripted processor of the scenario.
@@ -130,6 +131,9 @@ func (p flowParams) name() string {
 	}
 	if p.AckSendFaults {
 		n += "/acksendfaults"
+	}
+	if p.ProcTeardownErr {
+		n += "/procteardownerr"
 	}
 	if p.LateAckRecv {
 		n += "/lateackrecv"
@@ -281,7 +285,7 @@ func flowScenario(p flowParams) verifkit.Scenario {
 			procs := fakes.NewProcs(x.W)
 			for _, pr := range p.Procs {
 				pr := pr
-				procs.Add(fakes.ProcScript{Name: pr.ID, Gate: pr.Gate, Menu: pr.Menu, OpenMenu: p.ProcOpenMenu, KindOf: func(_ string, idx, _ int) string {
+				procs.Add(fakes.ProcScript{Name: pr.ID, Gate: pr.Gate, Menu: pr.Menu, OpenMenu: p.ProcOpenMenu, TeardownErr: p.ProcTeardownErr, KindOf: func(_ string, idx, _ int) string {
 					if idx >= 0 && idx < len(pr.Kinds) {
 						return kindName(pr.Kinds[idx])
 					}
